@@ -1,6 +1,7 @@
 """MC_Dag: model check the specified compile pipeline; Derive conformance on the real rule base."""
 from __future__ import annotations
 
+import os
 import gs
 import tlc
 
@@ -16,7 +17,7 @@ INVS = {
 
 def run_mc(chk, quick, which):
     invs = INVS[which]
-    cfg = tlc.SPEC_DIR / f"_gen_mcdag_{which}.cfg"
+    cfg = tlc.SPEC_DIR / f"_gen_mcdag_{which}_{os.getpid()}.cfg"
     cfg.write_text(f"CONSTANTS\n  Small = {'TRUE' if quick else 'FALSE'}\n  WithPid = FALSE\nSPECIFICATION Spec\n" + "".join(f"INVARIANT {i}\n" for i in invs) + "CHECK_DEADLOCK FALSE\n")
     try:
         res = tlc.run("MC_Dag", cfg.name, workdir=chk.work, workers=16, timeout=3400)
